@@ -143,6 +143,7 @@ def check_cfg(F, R, cfg):
     R.floor("C16.serialize", I("hand-written Serialize impls"), len(sers), 7)
     R.floor("C16.deserialize", I("hand-written Deserialize impls"), len(des), 7)
     tuple_n = {}
+    delegating, ser_ok = [], {}
     for f in sorted(sers, key=lambda f: f["key"]):
         fv = view(F, f)
         ty = norm_ty(f.get("self_ty") or "")
@@ -159,14 +160,43 @@ def check_cfg(F, R, cfg):
                 src = C13.loop_iter_source(fv, expr_of(fv, els[0][1]["args"][1], 40))
             good, want = canonical_source(ty, src)
             good = good and tuple_n[ty] == 32
+            ser_ok[ty] = good
             (R.ok if good else R.viol)("C16.serialize", I(nm), "serialize_tuple(32) over " + want if good else
                                        "serialised elements are not the 32 bytes of %s (source: %s, n=%s)" % (want, ex.show(src, 5) if src else None, tuple_n[ty]), *(() if good else (fv.loc(),)))
         elif sb:
             e = expr_of(fv, sb[0][1]["args"][1], 40)
-            good, want = canonical_source(ty, e)
+            good, want = canonical_source(ty, e, F)
+            ser_ok[ty] = good
             (R.ok if good else R.viol)("C16.serialize", I(nm), "serialize_bytes(" + want + ")" if good else "serialised bytes are not %s: %s" % (want, ex.show(e, 5)), *(() if good else (fv.loc(),)))
         else:
-            R.viol("C16.serialize", I(nm), "Serialize impl uses neither serialize_tuple nor serialize_bytes", fv.loc())
+            delegating.append(f)
+    for f in delegating:
+        # `x.serialize(serializer)` where x's type has its own (already decided) hand-written Serialize: the wire format is that type's, the value must be
+        # the canonical encoding of self
+        fv = view(F, f)
+        ty = norm_ty(f.get("self_ty") or "")
+        nm = ty.split("::")[-1] + "::serialize"
+        inner = fv.find_calls(r" as [\w:]*Serialize>::serialize(::<.*>)?$")
+        good, why = False, "Serialize impl uses neither serialize_tuple nor serialize_bytes"
+        if len(inner) == 1:
+            t = inner[0][1]
+            m_ = re.search(r"<(.*) as [\w:]*Serialize>::serialize(::<.*>)?$", cname(t))
+            ty2 = norm_ty(m_.group(1)) if m_ else None
+            dec2 = ser_ok.get(ty2)
+            e = expr_of(fv, t["args"][0], 40)
+            s2 = ty2.split("::")[-1] if ty2 else "?"
+            if dec2 and s2 in ("CompressedEdwardsY", "CompressedRistretto", "Scalar"):
+                wrapped = ("call", "curve25519_dalek::%s::as_bytes" % s2, [e])
+                ok_src, want = canonical_source(ty, wrapped)
+                if ok_src:
+                    good = True
+                    tuple_n[ty] = tuple_n.get(ty2)
+                    why = "delegates to %s's Serialize (decided above) applied to the canonical encoding of self" % s2
+                else:
+                    why = "delegates to %s's Serialize, but the value serialised is not %s: %s" % (s2, want, ex.show(e, 5))
+            elif ty2:
+                why = "delegates to the Serialize impl of %s, which is not a decided hand-written impl of an encoding type" % ty2
+        (R.ok if good else R.viol)("C16.serialize", I(nm), why, *(() if good else (fv.loc(),)))
     for f in sorted(des, key=lambda f: f["key"]):
         fv = view(F, f)
         ty = norm_ty(f.get("self_ty") or "")
@@ -203,7 +233,7 @@ def check_cfg(F, R, cfg):
     (R.ok if want <= set(derived) else R.viol)("C16.derived", I("derived Deserialize"), "derived for %s" % derived if want <= set(derived) else "expected derived Deserialize for %s, found %s" % (sorted(want), derived))
 
 
-def canonical_source(ty, e):
+def canonical_source(ty, e, F=None):
     """is expression e the canonical encoding of self for type ty?  returns (bool, description)"""
     short = ty.split("::")[-1]
     if e is None:
@@ -217,7 +247,20 @@ def canonical_source(ty, e):
         c = ex.find(e, lambda x: x[0] == "call" and re.search(r"(Scalar|CompressedEdwardsY|CompressedRistretto)::as_bytes$", x[1]))
         return bool(c) and ex.is_arg(c[0][2][0], 1), want
     if short == "SigningKey":
-        return ex.mentions_arg(e, 1, r"\.\d+") and not ex.find(e, lambda x: x[0] == "call" and not re.search(r"Index|index|deref|as_ref|borrow", x[1])), "self.secret_key"
+        direct = ex.mentions_arg(e, 1, r"\.\d+") and not ex.find(e, lambda x: x[0] == "call" and not re.search(r"Index|index|deref|as_ref|borrow", x[1]))
+        if not direct and F is not None:
+            # through the accessor: SigningKey::as_bytes(self) / to_bytes(self), whose body returns the secret_key field of its receiver
+            c = ex.find(e, lambda x: x[0] == "call" and re.search(r"signing::SigningKey::(as_bytes|to_bytes)$", x[1]))
+            others = ex.find(e, lambda x: x[0] == "call" and not re.search(r"Index|index|deref|as_ref|borrow|signing::SigningKey::(as_bytes|to_bytes)$", x[1]))
+            if c and not others and ex.is_arg(c[0][2][0], 1):
+                gs = [g for g in F.fns.values() if "mir" in g and g["path"] == c[0][1]]
+                a_ = F.adts.get("ed25519_dalek::signing::SigningKey")
+                if len(gs) == 1 and a_:
+                    idx = [i for i, fl in enumerate(a_["variants"][0]["fields"]) if fl["name"] == "secret_key"]
+                    gv = view(F, gs[0])
+                    r_ = ex.strip(expr_of(gv, ["m", [0, []]], 8))
+                    direct = bool(idx) and ex.mentions_arg(r_, 1, r"\.%d" % idx[0]) and not ex.find(r_, lambda x: x[0] == "call")
+        return direct, "self.secret_key"
     if short == "VerifyingKey":
         c = ex.find(e, lambda x: x[0] == "call" and re.search(r"VerifyingKey::as_bytes$", x[1]))
         return bool(c) and ex.is_arg(c[0][2][0], 1), "self.as_bytes()"
